@@ -20,7 +20,7 @@ BOUNDS = dict(constraint='1 array constraint with 2 elements (thorough 3), every
 STUBS = ['scipy.optimize.minimize -> capturing stub returning a symbolic design with success=True (SciPy optimizers are trusted, not executed)',
          'module-global float pass-through in general_utils/system']
 ASSUMPTIONS = ['lower <= upper', 'scaler != 0', 'SciPy evaluates the objective at the point it returns']
-OUTSIDE = ['SciPy\'s optimisation algorithms and their tolerance handling', 'pyOptSparseDriver', 'optimum of convex problems', 'linear constraints (handed over as matrices)']
+OUTSIDE = ['SciPy\'s optimisation algorithms and their tolerance handling', 'pyOptSparseDriver', 'optimum of convex problems', 'bounds of LinearConstraint objects (their matrix is checked)']
 
 
 def harnesses(tier, seed):
@@ -34,9 +34,24 @@ def harnesses(tier, seed):
                 if q and scaling == 'scaled' and k[0] != k[1]:
                     continue
                 jobs.append(dict(fn='h_transcription', params=dict(opt=opt, kinds=list(k), scaling=scaling), max_paths=20000))
+    if q:
+        # partly unbounded bound arrays with scaling (the scaled/mixed combinations skipped above), and one-sided design-variable bounds
+        for k in (('lower', 'upper'), ('both', 'upper')):
+            jobs.append(dict(fn='h_transcription', params=dict(opt='SLSQP', kinds=list(k), scaling='scaled'), max_paths=20000))
+    for opt in ('SLSQP',) if q else ('SLSQP', 'COBYLA', 'trust-constr'):
+        for scaling in ('none', 'scaled'):
+            jobs.append(dict(fn='h_transcription', params=dict(opt=opt, kinds=['both', 'lower'], scaling=scaling, dv='mixed'), max_paths=20000))
     if not q:
         for k in (('both', 'lower', 'upper'), ('upper', 'both', 'both'), ('lower', 'lower', 'both')):
             jobs.append(dict(fn='h_transcription', params=dict(opt='SLSQP', kinds=list(k), scaling='scaled'), max_paths=50000))
+    # gradients handed to SciPy are the derivatives of the functions handed to SciPy (first and repeated runs, linear constraints)
+    for opt in ('SLSQP',) if q else ('SLSQP', 'trust-constr'):
+        for linear in (True, False):
+            for scaling in ('none', 'scaled'):
+                for runs in (1, 2):
+                    if q and scaling == 'none' and runs == 1:
+                        continue
+                    jobs.append(dict(fn='h_gradients', params=dict(opt=opt, linear=linear, scaling=scaling, runs=runs), max_paths=20000))
     return jobs
 
 
@@ -68,7 +83,7 @@ class _Result:
     nit = 1
 
 
-def h_transcription(ctx, opt, kinds, scaling):
+def h_transcription(ctx, opt, kinds, scaling, dv='two'):
     if ctx.sym:
         from symx import stubs
         import openmdao.utils.general_utils as GU
@@ -115,6 +130,11 @@ def h_transcription(ctx, opt, kinds, scaling):
         dup = ctx.reals('dup', n, -50, 50)
         for i in range(n):
             ctx.assume(dlo[i] <= dup[i])
+    dfin = [(True, True)] * n
+    if dv == 'mixed':           # element 0 has no upper bound, element 1 no lower bound
+        dfin = [(True, False), (False, True)] + [(True, True)] * (n - 2)
+        dlo = ctx.array([dlo[i] if dfin[i][0] else ctx.const(-INF_BOUND) for i in range(n)])
+        dup = ctx.array([dup[i] if dfin[i][1] else ctx.const(INF_BOUND) for i in range(n)])
     x0 = ctx.reals('x0', n, -50, 50)
     xr = ctx.reals('xr', n, -50, 50)          # the design SciPy "returns" (optimizer space)
     y = ctx.reals('y', n, -60, 60)            # arbitrary constraint values in model units
@@ -180,14 +200,168 @@ def h_transcription(ctx, opt, kinds, scaling):
     if b is not None:
         pairs = list(zip(np.asarray(b.lb, dtype=object), np.asarray(b.ub, dtype=object))) if hasattr(b, 'lb') else [tuple(q) for q in b]
         for i in range(n):
-            img = [(dlo[i] + a) * s, (dup[i] + a) * s]
+            # a missing bound stays missing (None / +-inf for SciPy), a finite one is mapped; a negative scaler swaps the sides
+            img = [(dlo[i] + a) * s if dfin[i][0] else None, (dup[i] + a) * s if dfin[i][1] else None]
             neg = bool(s < 0) if scaling == 'scaled' else False
             wl, wu = (img[1], img[0]) if neg else (img[0], img[1])
-            ctx.eq(f'bound_lower[{i}]', pairs[i][0], wl)
-            ctx.eq(f'bound_upper[{i}]', pairs[i][1], wu)
+            for side, got, want in (('lower', pairs[i][0], wl), ('upper', pairs[i][1], wu)):
+                if want is None:
+                    unb = got is None or (not hasattr(got, 'diff') and not np.isfinite(float(got)))
+                    ctx.check(f'bound_{side}[{i}]_absent', bool(unb), got=repr(got))
+                else:
+                    ctx.check(f'bound_{side}[{i}]_present', got is not None)
+                    if got is not None:
+                        ctx.eq(f'bound_{side}[{i}]', got, want)
     # (iii) the reported design is the returned one, in model units
     xm = p.get_val('x')
     for i in range(n):
         ctx.eq(f'design_written_back[{i}]', xm[i], xr[i] / s - a)
     ctx.eq('constraint_at_reported_design', p.get_val('y'), xm)
     ctx.observe('x', xm)
+
+
+class _Lin(om.ExplicitComponent):
+    """c = A x (+ x_i^2 when not linear); A is a non-design input"""
+
+    def __init__(self, n, xp, linear):
+        super().__init__()
+        self._n, self._xp, self._linear = n, xp, linear
+
+    def setup(self):
+        n = self._n
+        self.add_input('x', val=self._xp.ones(n))
+        self.add_input('A', val=self._xp.ones((n, n)))
+        self.add_output('c', val=self._xp.ones(n))
+        self.add_output('f', val=self._xp.ones(1))
+        self.declare_partials('c', 'x')
+        self.declare_partials('f', 'x')
+
+    def compute(self, i, o):
+        x, A = i['x'], i['A']
+        n = self._n
+        c = [sum(A[r, k] * x[k] for k in range(n)) + (0 if self._linear else x[r] * x[r]) for r in range(n)]
+        o['c'] = self._xp.array(c) if self._xp is not np else np.array(c, dtype=float)
+        o['f'] = (x * x).sum()
+
+    def compute_partials(self, i, J):
+        x, A = i['x'], i['A']
+        n = self._n
+        Jc = A.copy()
+        if not self._linear:
+            for r in range(n):
+                Jc[r, r] = Jc[r, r] + 2 * x[r]
+        J['c', 'x'] = Jc
+        J['f', 'x'] = (2 * x).reshape(1, -1)
+
+
+def h_gradients(ctx, opt, linear, scaling, runs):
+    """every (fun, jac) pair handed to SciPy is consistent: jac(x) is the derivative of fun(x) with respect to the optimizer's
+    variables, at a symbolic design point - on the first run and on a repeated run after the coefficients changed"""
+    if ctx.sym:
+        from symx import stubs
+        import openmdao.utils.general_utils as GU
+        import openmdao.core.system as SY
+        stubs.install_float(GU, SY)
+    n = 2
+    xp = ctx.np
+    new_style = opt == 'trust-constr'
+    A1 = ctx.consts([['3/2', '-1'], ['1/2', '2']])
+    A2 = ctx.consts([['-2', '1/4'], ['3', '-5/2']]) if new_style else ctx.reals('A', (n, n), -5, 5)
+    if scaling == 'scaled':
+        if new_style:
+            sx, ax, sc, ac = ctx.const('-3/2'), ctx.const('1/4'), ctx.const('-5/2'), ctx.const('3/4')
+        else:
+            sx, sc = ctx.real('sx', -8, 8), ctx.real('sc', -8, 8)
+            for v in (sx, sc):
+                ctx.assume((v >= ctx.const('1/8')) | (v <= ctx.const('-1/8')))
+            ax, ac = ctx.real('ax', -8, 8), ctx.real('ac', -8, 8)
+        xkw, ckw = dict(scaler=sx, adder=ax), dict(scaler=sc, adder=ac)
+    else:
+        xkw, ckw = {}, {}
+    xs = ctx.reals('xs', n, -20, 20)            # the point (optimizer space) at which SciPy asks for values and gradients
+    p = om.Problem()
+    p.model.add_subsystem('c', _Lin(n, xp, linear), promotes=['*'])
+    p.model.add_design_var('x', lower=ctx.consts(['-30', '-30']), upper=ctx.consts(['30', '30']), **xkw)
+    p.model.add_objective('f')
+    if new_style and linear:
+        # an ARRAY linear constraint cannot be handed to a new-style optimizer at all (ScipyOptimizeDriver passes one row of the
+        # matrix with the whole bound arrays and SciPy's LinearConstraint raises ValueError): no success is reported, so that is
+        # outside the property; two one-element linear constraints are used instead
+        p.model.add_constraint('c', indices=[0], lower=-1.0, upper=100.0, linear=True, **ckw)
+        p.model.add_constraint('c', indices=[1], lower=-100.0, upper=2.0, linear=True, alias='c1', **ckw)
+    else:
+        p.model.add_constraint('c', lower=ctx.consts(['-1', '-100']), upper=ctx.consts(['100', '2']), linear=linear, **ckw)
+    p.driver = drv = om.ScipyOptimizeDriver(optimizer=opt, disp=False, singular_jac_behavior='ignore')
+    p.setup()
+    p.set_val('x', ctx.consts(['1/2', '-3/4']))
+    state = dict(run=0)
+
+    def fake_minimize(fun, x_init, method=None, jac=None, hess=None, bounds=None, constraints=(), tol=None, options=None, **kw):
+        state['run'] += 1
+        tag = f"run{state['run']}:"
+        f0 = fun(xs)
+        g0 = jac(xs) if callable(jac) else None
+
+        def refresh(x):
+            fun(x)
+            if callable(jac):
+                jac(x)
+        if g0 is not None:
+            def fd_obj(d):
+                r = fun(np.array([float(v) for v in xs]) + d)
+                refresh(xs)
+                return [r]
+            ctx.deriv_matrix(tag + 'objective_gradient', np.asarray(g0).reshape(1, -1), [f0], xs, fd_obj)
+        k = 0
+        for con in constraints:
+            if isinstance(con, dict):
+                if 'jac' not in con:
+                    continue
+                v = con['fun'](xs, *con['args'])
+                g = con['jac'](xs, *con['args'])
+
+                def fd_con(d, con=con):
+                    fun(np.array([float(q) for q in xs]) + d)
+                    r = con['fun'](xs, *con['args'])
+                    refresh(xs)
+                    return [r]
+                ctx.deriv_matrix(tag + f'constraint[{k}]_gradient', np.asarray(g).reshape(1, -1), [v], xs, fd_con)
+            elif hasattr(con, 'A'):          # LinearConstraint: A x, compared with the (scaled) constraint values the driver computes
+                cname = list(drv._cons)[k]
+                cv = np.asarray(drv._con_cache[cname]).reshape(-1)
+
+                def fd_lin(d):
+                    fun(np.array([float(q) for q in xs]) + d)
+                    r = np.asarray(drv._con_cache[cname], dtype=float).reshape(-1).copy()
+                    refresh(xs)
+                    return r
+                Am = np.atleast_2d(np.asarray(con.A))
+                ctx.deriv_matrix(tag + f'linear_constraint[{k}]_matrix', Am, list(cv), xs, fd_lin)
+            else:                           # NonlinearConstraint
+                v = con.fun(xs)
+                g = con.jac(xs)
+
+                def fd_nl(d, con=con):
+                    fun(np.array([float(q) for q in xs]) + d)
+                    r = con.fun(xs)
+                    refresh(xs)
+                    return [np.asarray(r).reshape(-1)[0]]
+                ctx.deriv_matrix(tag + f'constraint[{k}]_gradient', np.asarray(g).reshape(1, -1), [np.asarray(v).reshape(-1)[0]], xs, fd_nl)
+            k += 1
+        state['ncon'] = k
+        r = _Result()
+        r.x = xs
+        r.fun = 0.0
+        return r
+    saved = SO.minimize
+    SO.minimize = fake_minimize
+    try:
+        p.set_val('A', A1 if runs == 2 else A2)
+        p.run_driver()
+        if runs == 2:
+            p.set_val('A', A2)
+            p.run_driver()
+    finally:
+        SO.minimize = saved
+    ctx.check('constraints_were_handed_over', state.get('ncon', 0) >= n)
+    ctx.observe('x', p.get_val('x'))
